@@ -749,13 +749,14 @@ End ListLoops.
 
 Section GetSteps.
   Variable env : enum_env.
+  Variable fo : float_oracle.
   Variable ko : key_oracle.
   Variable o : get_opts.
   Hypothesis Hsh : g_shadow o = false.
   Hypothesis Hpa : g_partial o = false.
   Hypothesis Hwi : g_wild o = false.
 
-  Notation GR := (get_rec env ko o).
+  Notation GR := (get_rec env fo ko o).
 
   Lemma get_rec_struct : forall f s sfs fs fi ss a e0 prest trav,
     struct_schema s sfs -> gn_struct_okb sfs = true -> In (fi, ss) sfs -> In a (f_paths fi) ->
@@ -833,16 +834,17 @@ End GetSteps.
 
 Section GetListEq.
   Variable env : enum_env.
+  Variable fo : float_oracle.
   Variable ko : key_oracle.
   Variable o : get_opts.
   Hypothesis Hpa : g_partial o = false.
   Hypothesis Hwi : g_wild o = false.
-  Notation GR := (get_rec env ko o).
+  Notation GR := (get_rec env fo ko o).
 
   Lemma get_rec_list_single : forall f k mn mx sfs es e0 prest trav pk,
     al_find k (ekeys e0) = Some pk ->
     GR (S f) (SList false [k] mn mx sfs) (Some (TList es)) (e0 :: prest) trav =
-      first_g env ko o f (SList false [k] mn mx sfs) sfs e0 prest trav k pk es.
+      first_g env fo ko o f (SList false [k] mn mx sfs) sfs e0 prest trav k pk es.
   Proof.
     intros f k mn mx sfs es e0 prest trav pk Hf. cbn [get_rec]. rewrite Hpa, Hwi, andb_false_r. cbn [orb]. rewrite Hf.
     induction es as [|[mk e] more IH]; [reflexivity|]. cbn [first_g].
@@ -852,7 +854,7 @@ Section GetListEq.
 
   Lemma get_rec_list_multi : forall f k1 k2 ks mn mx sfs es e0 prest trav,
     GR (S f) (SList false (k1 :: k2 :: ks) mn mx sfs) (Some (TList es)) (e0 :: prest) trav =
-      all_g env ko o f (SList false (k1 :: k2 :: ks) mn mx sfs) sfs (k1 :: k2 :: ks) e0 prest trav es.
+      all_g env fo ko o f (SList false (k1 :: k2 :: ks) mn mx sfs) sfs (k1 :: k2 :: ks) e0 prest trav es.
   Proof.
     intros. cbn [get_rec]. rewrite Hpa, Hwi.
     induction es as [|[mk e] more IH]; [reflexivity|]. cbn [all_g].
